@@ -176,7 +176,7 @@ pub fn run(tier: Tier) -> i32 {
     }
     let sb = par_sweep(docs.chunks(64).map(|c| c.to_vec()).collect(), |chunk: &Vec<Value>, st| {
         for d in chunk {
-            for f in ["max_by(@, &a)", "min_by(@, &a)", "sort_by(@, &a)", "map(&a, @)", "max_by(@, &i)", "sort_by(@, &type(a))"] {
+            for f in ["max_by(@, &a)", "min_by(@, &a)", "sort_by(@, &a)", "map(&a, @)", "max_by(@, &i)", "sort_by(@, &type(a))", "sort_by(@, &@ | a)", "max_by(@, &a || i)", "map(&a | @, @)", "min_by(@, &[a][0] | @)"] {
                 check_call_expr(f, d, "by-function-key-types", st);
             }
         }
@@ -208,6 +208,27 @@ pub fn run(tier: Tier) -> i32 {
             }
             for form in ["[join(',', gs[*]), join(',', bs[*])]", "join(',', bs[*])", "[max(gs[*]), max(bs[*])]", "[sort(gs[*]), sort(bn[*])]"] {
                 crate::checks::c06::check_wrapped(form, "", &dd, &mut st);
+            }
+        }
+    }
+    // a runtime on which nothing (or not everything) is registered: every builtin name is unknown there
+    {
+        let empty = jmespath::Runtime::new();
+        let mut partial = jmespath::Runtime::new();
+        partial.register_builtin_functions();
+        for s in signatures() {
+            partial.deregister_function(s.name);
+            for (rt, what) in [(&empty, "fresh runtime"), (&partial, "after deregistration")] {
+                st.states += 1;
+                st.evaluations += 1;
+                st.validated += 1;
+                let src = format!("{}(`1`)", s.name);
+                let r = guarded(|| rt.compile(&src).unwrap().search(()).map(|v| v.to_string()).map_err(|e| crate::implx::classify(&e)));
+                if !matches!(&r, Ok(Err(crate::implx::IClass::Rt(crate::reval::ErrClass::UnknownFunction)))) {
+                    st.violate(Violation { key: format!("C06/unregistered-name/{}", s.name), check: "unregistered".into(), case: json!({"kind": "unregistered", "name": s.name, "runtime": what}), expected: "unknown-function".into(), actual: format!("{:?}", r) });
+                } else {
+                    st.outcome("unknown function");
+                }
             }
         }
     }
